@@ -448,6 +448,9 @@ func (ce *CEnv) evalCall(e *CExpr) Val {
 			fmt.Fprintf(os.Stderr, "origin(%v,%s): calls=%v alts=%v\n", v, args[1].S, st.calls, alts)
 		}
 		return SV{T: Or(alts...)}
+	case "global":
+		// the identity of a library's package-level value, e.g. global("binary.BigEndian")
+		return SV{T: Var("g."+args[0].S, SInt)}
 	case "called":
 		if ce.atCallSite {
 			return SV{T: True}
